@@ -97,6 +97,7 @@ type Regex struct {
 	engine  *meta.Engine
 	pattern string
 	longest bool // if true, prefer leftmost-longest match (POSIX semantics)
+	posix   bool // compiled by CompilePOSIX (POSIX ERE syntax); Copy must recompile the same way
 }
 
 // Regexp is an alias for Regex to provide drop-in compatibility with stdlib regexp.
@@ -158,9 +159,20 @@ func MustCompile(pattern string) *Regex {
 // that early regular expression implementations used and that POSIX
 // specifies.
 func CompilePOSIX(pattern string) (*Regex, error) {
-	re, err := Compile(pattern)
+	// Parse with POSIX ERE syntax, as regexp.CompilePOSIX does: Perl extensions (\d, (?i),
+	// \pN, lazy quantifiers) are rejected and ^/$ are line anchors.
+	ast, err := syntax.Parse(pattern, syntax.POSIX)
+	if err != nil {
+		return nil, &meta.CompileError{Pattern: pattern, Err: err}
+	}
+	engine, err := meta.CompileRegexp(ast, meta.DefaultConfig())
 	if err != nil {
 		return nil, err
+	}
+	re := &Regex{
+		engine:  engine,
+		pattern: pattern,
+		posix:   true,
 	}
 	re.Longest()
 	return re, nil
@@ -1634,7 +1646,11 @@ func (r *Regex) Copy() *Regex {
 	// Create a new Regex with the same pattern
 	// Note: This re-compiles the pattern, which is slightly slower than
 	// sharing the internal engine, but ensures complete independence.
-	re, err := Compile(r.pattern)
+	compile := Compile
+	if r.posix {
+		compile = CompilePOSIX
+	}
+	re, err := compile(r.pattern)
 	if err != nil {
 		// This should never happen since the pattern was already compiled
 		return nil
